@@ -35,10 +35,11 @@ Init == \/ fam = "ring" /\ a \in Box /\ b \in Box /\ fn = "" /\ x0 = Zero /\ sh 
 Next == UNCHANGED vars
 InvRing == fam \in {"ring", "near"} => /\ ThmIdemMul(a, b) /\ ThmIdemRoundTrip(a) /\ ThmInv(a) /\ ThmCommutes(a, b)
                           /\ BMul(a, BAdd(a, b)) = BAdd(BMul(a, a), BMul(a, b))
+                          /\ ThmPowInt(a) /\ ThmPowNeg(a)
 Rec == IF fam \in {"ring", "near"}
        THEN [fam |-> fam, a |-> a, b |-> b, sum |-> BAdd(a, b), dif |-> BSub(a, b), prod |-> BMul(a, b),
              inv |-> Invertible(b), quot |-> IF Invertible(b) THEN BDiv(a, b) ELSE BZero,
-             p2 |-> BPow(a, 2), p3 |-> BPow(a, 3), pm1 |-> IF Invertible(a) THEN BInv(a) ELSE BZero, ainv |-> Invertible(a)]
+             p2 |-> BPow(a, 2), p3 |-> BPow(a, 3), p5 |-> BPowInt(a, 5), pm2 |-> IF Invertible(a) THEN BPowInt(a, -2) ELSE BZero, pm1 |-> IF Invertible(a) THEN BInv(a) ELSE BZero, ainv |-> Invertible(a)]
        ELSE IF fam = "dir" THEN [fam |-> fam, e |-> a, pows |-> [k \in 1..(KP + 1) |-> BPow(a, k - 1)]]
        ELSE [fam |-> fam, fn |-> fn, x0 |-> x0, e |-> a, sh |-> sh]
 Emit == EmitOn => PrintT(<<"@@", ToJson(Rec)>>)
